@@ -671,3 +671,20 @@ Definition is_guarded_collect_impl (i : impl_hdr) : bool :=
   | TPath n _ _ => mem n static_only_ctors
   | _ => false
   end.
+
+(** ** Impl headers keep the brand
+
+    An impl [impl<'a ..> Trait<Args> for Self] whose trait ARGUMENTS mention a lifetime parameter of the
+    impl that its self type does not mention lets the caller choose that lifetime freely: for the
+    conversion trait behind [unsize!] ([__CoercePtrInternal<Dst> for Src]) that would re-brand a pointer.
+    Every lifetime parameter occurring in a trait argument must occur in the self type. *)
+Definition impl_arg_lts (i : impl_hdr) : list string :=
+  filter (fun l => existsb (mentions_lt l) (i_trait_args i)) (g_lts (i_g i)).
+
+Definition impl_args_brand_ok (i : impl_hdr) : bool :=
+  forallb (fun l => mentions_lt l (i_self i)) (impl_arg_lts i).
+
+(** The conversion impls the rule is about (non-vacuity): impls of [tr] whose arguments carry a
+    lifetime parameter. *)
+Definition brand_carrying_impls (tr : string) (is : list impl_hdr) : list impl_hdr :=
+  filter (fun i => String.eqb (i_trait i) tr && match impl_arg_lts i with [] => false | _ => true end) is.
